@@ -111,17 +111,22 @@ package types
 
 // votes (C11): votesOf(a) is the candidate tally stored in a, voteForKey(a) identifies the candidate a currently votes for
 // (akey is an injective integer code of an address), isCand(a) is the registration flag in a's candidate profile
-//@ spec func votesOf(a AccountAccessor) mathint = gh("votes", a)
+// The tally is a *big.Int OWNED by the account: GetVotes hands out that very pointer (chain/account.(*Account).GetVotes does not
+// copy), SetVotes installs a fresh copy.  votesPtr is the owned pointer; a caller that mutates the number it got from GetVotes in
+// place writes memory that is in nobody's modifies clause: a frame violation.
+//@ spec func votesOf(a AccountAccessor) mathint = val(gh("votesPtr", a))
+// the owned number is an object that exists (in a precondition: existed before the call)
+//@ pred ownsVotes(a AccountAccessor) = existing(gh("votesPtr", a))
 //@ spec func akey(x common.Address) mathint = pairkey(x, 0)
 //@ spec func voteForKey(a AccountAccessor) mathint = gh("voteFor", a)
 //@ spec func isCand(a AccountAccessor) bool = gh("isCand", a) != 0
 //@ func (AccountAccessor).GetVotes   trusted
 //@   modifies nothing
-//@   ensures result != nil && fresh(result) && val(result) == votesOf(recv)
+//@   ensures result != nil && ref(result) == gh("votesPtr", recv)
 //@ func (AccountAccessor).SetVotes   trusted
 //@   panics_if votes == nil
-//@   modifies gh("votes", recv)
-//@   ensures votesOf(recv) == val(votes)
+//@   modifies gh("votesPtr", recv)
+//@   ensures fresh(gh("votesPtr", recv)) && existing(gh("votesPtr", recv)) && votesOf(recv) == val(votes)
 //@ func (AccountAccessor).GetVoteFor   pure trusted
 //@   opt reads=gh:voteFor
 //@   ensures akey(result) == voteForKey(recv)
